@@ -1,5 +1,7 @@
 import SteelVerif.C16.Props
 import SteelVerif.C16.GenCallPaths
+import SteelVerif.C16.GenLocks
+import SteelVerif.C16.LockOrder
 open SteelVerif.C16
 #print axioms step_moves
 #print axioms stopper_progress
@@ -38,3 +40,11 @@ open SteelVerif.C16
 #print axioms R.settle_step
 #print axioms R.settled_unblocks
 #print axioms R.awaited_settles
+#print axioms spin_holds_no_unpublished_lock
+#print axioms root_table_taken_unpublished
+#print axioms root_table_is_a_leaf_of_the_collector
+#print axioms heap_lock_inside_safepoint
+#print axioms locks_nonempty
+#print axioms LockOrder.no_deadlock_stop_first
+#print axioms LockOrder.lock_first_deadlocks
+#print axioms LockOrder.step_inv
